@@ -460,3 +460,144 @@ func pathAvoidingFrom(from, to *ssa.BasicBlock, avoid map[*ssa.BasicBlock]bool) 
 	}
 	return false
 }
+
+// ---------------------------------------------------------------------------
+// T-STALE — an operation is added to an accumulator on top of the row as the
+// accumulator already changed it: the same `current` value is not handed to
+// two AddOperation calls on one accumulator when the second can follow the
+// first (the second would be computed from the row as it was before the
+// first, and the merge keeps its new value).
+
+func ruleTSTALE(p *Program, r *Reporter) {
+	const id = "T-STALE"
+	n := 0
+	for _, fn := range p.srcFuncs {
+		if pk := pkgOf(fn); pk != "updates" && pk != "database/transaction" {
+			continue
+		}
+		var calls []*ssa.Call
+		for _, b := range fn.Blocks {
+			for _, ins := range b.Instrs {
+				if c, ok := ins.(*ssa.Call); ok {
+					if sc := c.Call.StaticCallee(); sc != nil && sc.Name() == "AddOperation" && len(c.Call.Args) >= 6 {
+						calls = append(calls, c)
+					}
+				}
+			}
+		}
+		if len(calls) == 0 {
+			continue
+		}
+		fc := newFlowCtx(fn)
+		for i, c2 := range calls {
+			n++
+			bad := ""
+			for j, c1 := range calls {
+				if i == j {
+					continue
+				}
+				// same accumulator (receiver), same uuid, same `current` value, c2 can follow c1
+				if c1.Call.Args[0] == c2.Call.Args[0] && c1.Call.Args[3] == c2.Call.Args[3] && c1.Call.Args[4] == c2.Call.Args[4] && fc.canFollow(c1, c2) {
+					if k, isC := c2.Call.Args[4].(*ssa.Const); isC && k.IsNil() {
+						continue // nil current: inserts
+					}
+					bad = p.Pos(c1.Pos())
+				}
+			}
+			r.Ob(id, funcName(fn), "current row of AddOperation", c2.Pos(), bad == "", true,
+				ifs(bad == "", "no earlier AddOperation on the same accumulator and row was given the same current value", "this AddOperation can follow the one at "+bad+" on the same accumulator and row and is given the same current value: it is computed from the row as it was before the first operation, so the first operation's effect is lost from the merged new value while its difference stays"))
+		}
+	}
+	if n < 4 {
+		r.Anchor(id, fmt.Sprintf("AddOperation call sites: %d, expected >= 4", n))
+	}
+}
+
+// ---------------------------------------------------------------------------
+// T-SEEALL — the reference tracker works in rounds (garbage collecting a row
+// can orphan further rows); the row state it consults in a later round must
+// include what earlier rounds changed. Structural form: among the
+// ModelUpdates fields of referenceTracker that getModel/getRow consult, at
+// least one is assigned inside the loop of processReferencesLoop (or in a
+// function called from inside it).
+
+func ruleTSEEALL(p *Program, r *Reporter) {
+	const id = "T-SEEALL"
+	loopFn := p.Fn("updates", "referenceTracker", "processReferencesLoop")
+	if loopFn == nil {
+		r.Anchor(id, "updates.(*referenceTracker).processReferencesLoop")
+		return
+	}
+	rtT := p.LookupType("updates", "referenceTracker")
+	muT := p.LookupType("updates", "ModelUpdates")
+	if rtT == nil || muT == nil {
+		r.Anchor(id, "updates.referenceTracker / ModelUpdates")
+		return
+	}
+	isMUField := func(f *types.Var) bool {
+		return f != nil && fieldOwner[f] == "referenceTracker" && types.Identical(f.Type(), muT)
+	}
+	// fields assigned inside the loop (directly or in callees of the loop body)
+	assignedInLoop := map[*types.Var]bool{}
+	var inLoopFns []*ssa.Function
+	for _, b := range loopFn.Blocks {
+		h := loopHeaderOf(b)
+		if h == nil {
+			continue
+		}
+		for _, ins := range b.Instrs {
+			if st, ok := ins.(*ssa.Store); ok {
+				if fa, ok := st.Addr.(*ssa.FieldAddr); ok && isMUField(fieldOfAddr(fa)) {
+					assignedInLoop[fieldOfAddr(fa)] = true
+				}
+			}
+			if c, ok := ins.(*ssa.Call); ok {
+				if sc := c.Call.StaticCallee(); sc != nil && pkgOf(sc) == "updates" {
+					inLoopFns = append(inLoopFns, sc)
+				}
+			}
+		}
+	}
+	for _, g := range p.Reach(inLoopFns...) {
+		for _, b := range g.Blocks {
+			for _, ins := range b.Instrs {
+				if st, ok := ins.(*ssa.Store); ok {
+					if fa, ok := st.Addr.(*ssa.FieldAddr); ok && isMUField(fieldOfAddr(fa)) {
+						assignedInLoop[fieldOfAddr(fa)] = true
+					}
+				}
+			}
+		}
+	}
+	n := 0
+	for _, name := range []string{"getModel", "getRow"} {
+		g := p.Fn("updates", "referenceTracker", name)
+		if g == nil {
+			r.Anchor(id, "updates.(*referenceTracker)."+name)
+			continue
+		}
+		n++
+		var consulted []string
+		fresh := false
+		for _, h := range p.Reach(g) {
+			for _, b := range h.Blocks {
+				for _, ins := range b.Instrs {
+					fa, ok := ins.(*ssa.FieldAddr)
+					if !ok || !isMUField(fieldOfAddr(fa)) {
+						continue
+					}
+					consulted = append(consulted, fieldOfAddr(fa).Name())
+					if assignedInLoop[fieldOfAddr(fa)] {
+						fresh = true
+					}
+				}
+			}
+		}
+		r.Ob(id, funcName(g), "row state includes earlier rounds", g.Pos(), fresh, true,
+			ifs(fresh, fmt.Sprintf("consults %v, of which at least one is brought up to date inside the loop of processReferencesLoop", consulted), fmt.Sprintf("consults only %v, none of which is assigned inside the loop of processReferencesLoop: a second round of reference clean-up on the same row starts from the row as it was before the first round and undoes it (dangling weak reference committed, notifications disagree with the database)", consulted)))
+	}
+	_ = rtT
+	if n < 2 {
+		r.Anchor(id, "referenceTracker.getModel / getRow")
+	}
+}
